@@ -243,7 +243,7 @@ def run(tier, seed, only):
 def exec_step(mf, reg, fname, extra_args, pre_hyps):
     pre = St("0")
     it = mir.Interp(mf, mir.BVBackend(), models(), inline=INLINE, registry=reg, max_steps=4000)
-    fn = mf.find(r"connection\.rs:2350[^>]*>::%s\(" % fname) if False else mf.find(r"connection::<impl at [^>]*>::%s\(_1: &mut ResponseHandlerMap" % fname)
+    fn = mf.find(r"connection::<impl at [^>]*>::%s\(_1: &mut ResponseHandlerMap" % fname)
     cell = Cell(table_value(pre))
     paths = it.run(fn, [Ref(cell)] + extra_args, pre_hyps)
     return pre, paths
